@@ -2,6 +2,9 @@
 mod common;
 mod pdb;
 mod record;
+mod workers;
+mod small;
+mod probe;
 mod sys;
 
 use std::collections::HashMap;
@@ -40,6 +43,14 @@ fn main() {
     let args = parse_args(&argv[2..]);
     let code = match argv[1].as_str() {
         "pdb-replay" => pdb::cmd_replay(&args),
+        "lock-child" => small::cmd_lock_child(&args),
+        "lock-replay" => small::cmd_lock_replay(&args),
+        "lock-race" => small::cmd_lock_race(&args),
+        "migrate-replay" => small::cmd_migrate_replay(&args),
+        "admin-replay" => small::cmd_admin_replay(&args),
+        "workers-scenario" => workers::cmd_scenario(&args),
+        "workers-live" => workers::cmd_live(&args),
+        "probe" => probe::cmd_probe(&args),
         "pdb-record" => record::cmd_record(&args),
         "pdb-record-mt" => record::cmd_record_mt(&args),
         other => {
